@@ -31,15 +31,22 @@ type EnvSpec struct {
 	NF    bool     `json:"nf,omitempty"` // number format given
 	Dec   string   `json:"dec"`
 	Grp   string   `json:"grp"`
+	JSON  string   `json:"json,omitempty"`  // the environment as envs.ReadEnvironment reads it (may be rejected)
+	Field string   `json:"field,omitempty"` // JSON environments: the member that is out of vocabulary
 }
 
 func (e *EnvSpec) key() string {
+	if e.JSON != "" {
+		return "json:" + e.JSON
+	}
 	return strings.Join([]string{e.DF, e.TF, e.TZ, e.CC, e.Col, strings.Join(e.Langs, "+"), hx.Bool(e.NF), e.Dec, e.Grp}, "|")
 }
 
 // aspect: which setting differs from the default (for failure classes)
 func (e *EnvSpec) aspect() string {
 	switch {
+	case e.JSON != "":
+		return strings.ReplaceAll(e.Field, "_", "-")
 	case e.NF:
 		return "number-format-symbol"
 	case e.DF != "":
@@ -58,7 +65,15 @@ func (e *EnvSpec) aspect() string {
 	return "default"
 }
 
+// build returns nil when envs.ReadEnvironment rejects the JSON (which is fine: nothing is evaluated then)
 func (e *EnvSpec) build() envs.Environment {
+	if e.JSON != "" {
+		env, err := envs.ReadEnvironment([]byte(e.JSON))
+		if err != nil {
+			return nil
+		}
+		return env
+	}
 	b := envs.NewBuilder()
 	if e.DF != "" {
 		b.WithDateFormat(envs.DateFormat(e.DF))
@@ -191,8 +206,58 @@ func envTasks(r *hx.Rand, n int) []*task {
 			}
 		}
 	}
+	// environments as READ from JSON with one member out of vocabulary: ReadEnvironment may reject them; accepting one
+	// and panicking later is the violation
+	for _, je := range jsonEnvironments() {
+		rr := r.Fork("json" + je.JSON)
+		for _, fn := range known {
+			add(je, fn, tuple(rr, fn))
+			add(je, fn, tuple(rr, fn))
+		}
+		for _, fn := range []string{"has_any_word", "has_all_words", "has_phrase", "has_only_phrase", "has_only_text", "has_beginning"} {
+			add(je, fn, []VSpec{txt("the Quick brown fox"), txt("quick fox")})
+		}
+		add(je, "has_date", []VSpec{txt("on 15/01/2017 or 2017-01-15 or 01-15-2017 at 10:30")})
+		add(je, "datetime", []VSpec{txt("15/01/2017 10:30")})
+		add(je, "format_date", []VSpec{named("dt:2018", vDT("2018-04-11T13:24:30.123456-05:00"))})
+		add(je, "format_datetime", []VSpec{named("dt:2018", vDT("2018-04-11T13:24:30.123456-05:00"))})
+		add(je, "has_state", []VSpec{txt("Kigali")})
+		add(je, "has_phone", []VSpec{txt("my number is 2067799294")})
+	}
 	if len(cur.calls) > 0 {
 		tasks = append(tasks, cur)
 	}
 	return tasks
+}
+
+func jsonEnvironments() []*EnvSpec {
+	base := map[string]string{"date_format": `"YYYY-MM-DD"`, "time_format": `"tt:mm"`, "timezone": `"UTC"`}
+	order := []string{"date_format", "time_format", "timezone", "allowed_languages", "number_format", "default_country", "input_collation", "redaction_policy"}
+	variants := map[string][]string{
+		"input_collation":   {`"default"`, `"confusables"`, `"arabic_variants"`, `""`, `"unicode"`, `"DEFAULT"`, `null`},
+		"date_format":       {`"DD/MM/YYYY"`, `"YY.M.D"`, `""`, `"D-M-YY"`, `"YYYY"`, `"MM-DD-YYYY tt:mm"`, `"QQ"`, `"YYYY-MM-DDTtt:mm"`, `null`},
+		"time_format":       {`""`, `"tt"`, `"h aa"`, `"tt:mm:ss.fff"`, `"ZZZ"`, `"YYYY"`, `null`},
+		"timezone":          {`""`, `"Nowhere/City"`, `"UTC+5"`, `"Local"`, `"America/Guayaquil"`, `null`},
+		"default_country":   {`""`, `"XX"`, `"usa"`, `"rw"`, `null`},
+		"redaction_policy":  {`""`, `"all"`, `"URNS"`, `"urns"`, `null`},
+		"allowed_languages": {`[]`, `["xyz"]`, `["en"]`, `["eng", "eng"]`, `[""]`, `null`},
+		"number_format":     {`null`, `{}`, `{"decimal_symbol": null}`, `{"decimal_symbol": "", "digit_grouping_symbol": ""}`, `{"decimal_symbol": "::", "digit_grouping_symbol": " "}`},
+	}
+	var out []*EnvSpec
+	for _, field := range order {
+		for _, v := range variants[field] {
+			var members []string
+			for _, f := range order {
+				val, ok := base[f]
+				if f == field {
+					val, ok = v, true
+				}
+				if ok {
+					members = append(members, `"`+f+`": `+val)
+				}
+			}
+			out = append(out, &EnvSpec{JSON: "{" + strings.Join(members, ", ") + "}", Field: field})
+		}
+	}
+	return out
 }
